@@ -246,6 +246,8 @@ class Out:
                 val = helper.uri(val)
             elif 'HASH' == type_:
                 val = self.ser._hash(val)
+            elif 'IDENT' == type_ and isinstance(val, str):
+                val = helper.ident(val)
             elif hasattr(type(val), 'cssText'):
                 val = val.cssText
             elif hasattr(val, 'mediaText'):
@@ -841,6 +843,7 @@ class CSSSerializer:
                 if isinstance(val, tuple):
                     # namespaceURI|name (element or attribute)
                     namespaceURI, name = val
+                    name = helper.ident(name)
                     if DEFAULTURI == namespaceURI or (
                         not DEFAULTURI and namespaceURI is None
                     ):
@@ -858,6 +861,9 @@ class CSSSerializer:
 
                         out.append(f'{prefix}|{name}', type_, space=False)
                 else:
+                    if type_ == 'class':
+                        # .name
+                        val = val[0] + helper.ident(val[1:])
                     out.append(val, type_, space=False, keepS=True)
 
             return out.value()
